@@ -101,6 +101,8 @@ prop('C03', units=['idx'], level='proof', relevant=r'^unit::index::',
                   'termination of find_field under the acyclicity it relies on (argued, not mechanised), hangs elsewhere.'),
      assumptions=IDX_ASSUME + ['SymbolMap::record_mut returns the record with the requested id (ghost rec_id_of); id_arena::Id equality is structural'])
 prop('C16', units=['idx', 'fs', 'dl'], level='proof', relevant=r'^unit::(index|file_system|fsspec|document_link)::',
+     bounded=[dict(test='c16_alias', covers='one file = one path: include paths that spell the same file differently (`./a.td`, `sub/../a.td`) must lead to one workspace entry (FilePath::join / std::path and the OS file system are outside the contracts: unit FS assumes join to be some function of directory and text and the universe of file ids to be finite)',
+                   bound='3 workspaces on the OS file system through the real lsp::vfs::Vfs: self-include spelled ./a.td, cycle a.td -> sub/b.td -> ../a.td, diamond main -> sub/x.td -> ../common.td and main -> common.td; number of workspace files and diagnostics compared with the expected ones, 60 s watchdog')],
      explanation=('Unit FS: Verus proves on the real text of collect_sources that the work-list loop terminates (measure: files of the universe not yet visited, then queue length; '
                   'the universe of file ids the file system can hand out is ASSUMED finite), that the returned SourceRoot contains the root, is closed under the include maps stored '
                   'in the database and contains only files reachable from the root through them (BFS invariants with a path witness), and that an include statement is recorded in its '
@@ -163,7 +165,7 @@ prop('C09', units=['ls'], level='proof',
 
 prop('C12', units=['ls'], level='proof', relevant=r'^unit::vfs::',
      bounded=[dict(test='c12_witness', covers='Server::set_file_content records the text of every didOpen/didChange as the document\'s open buffer (call site behind an RwLock write guard, outside the contracts)',
-                   bound='one recorded session on the real server: open inc.td, change inc.td, open root.td (includes inc.td), change root.td; go-to-definition after each root event')],
+                   bound='one recorded session on the real server: open inc.td, change inc.td, open root.td (includes inc.td), change root.td, open unsaved.td (no file on disk), change root.td to include it; go-to-definition after each root event')],
      explanation=('Unit LS, file vfs.rs (partial): Verus proves on the real text that Vfs::set_open_document records exactly the editor\'s text as the document\'s open buffer '
                   '(open_docs == old.insert(path, text): a later change replaces an earlier one) and that <Vfs as FileSystem>::read_content - the function through which the analysis reads every '
                   'included file - returns the open buffer when the document has one and what fs::read_to_string yields otherwise. Because ide::file_system::resolve_include_file stores in the '
@@ -207,7 +209,7 @@ prop('C17', units=['syn', 'dg', 'idx', 'ut'], level='proof',
 
 prop('C18', units=['fr', 'ut'], level='proof',
      bounded=[dict(test='c18_symbols', covers='the document-symbol half of C18 (symbol_to_document_symbol / per-file symbol lists: iterator chains over the symbol map, outside the contracts)',
-                   bound='a fixed corpus written from the property statement: 3 workspaces (template arguments and fields as children, overridden field, defset with its defs as children, redeclared name, a file and its include) whose outlines - kinds, names, text at the ranges, order, nesting - are compared with the expected ones')],
+                   bound='a fixed corpus written from the property statement: 4 workspaces (template arguments and fields as children, overridden field, defset with its defs as children and their own field children, redeclared name, a file and its include) whose outlines - kinds, names, text at the ranges, order, nesting - are compared with the expected ones')],
      explanation=('Partial: the folding-range half. Unit FR moves the filter closure of ide::handlers::folding_range::exec into a function and proves that it answers Some exactly for class, def, defset, '
                   'foreach, if, let and multiclass statement nodes (the list of the property) and that the range is [first token of the statement, end of its last non-trivia token] - the latter through '
                   'the contract of utils::range_excluding_trivia, which unit UT proves on the real code over an assumed model of rowan\'s token sequence. One range per such descendant, in document '
@@ -222,7 +224,7 @@ prop('C18', units=['fr', 'ut'], level='proof',
 
 prop('C19', units=['ih'], level='proof',
      bounded=[dict(test='c19_hints', covers='the hover, label and placement clauses of C19 (hover::exec / extract_doc_comments, inlay_hint_class, inlay_hint_record_field: rowan navigation and format!, outside the contracts)',
-                   bound='a fixed corpus written from the property statement: 3 workspaces; hover at 5 use sites (class with two contiguous // lines below a blank-line-separated comment, overridden field, template argument, undocumented class, def) compared with the expected signature and doc text and with the go-to-definition target; hover on a class of an included file; the full hint list (7 hints: positional arguments of a parent-class reference spread over two lines and of a class value, two field overrides) compared by position, label and kind')],
+                   bound='a fixed corpus written from the property statement: 4 workspaces; hover at 5 use sites (class with two contiguous // lines below a blank-line-separated comment, overridden field, template argument, undocumented class, def) compared with the expected signature and doc text and with the go-to-definition target; hover on a class of an included file; the full hint list (7 hints: positional arguments of a parent-class reference spread over two lines and of a class value, two field overrides) compared by position, label and kind; a class named as a type inside an argument gets no hint of its own')],
      explanation=('Partial: the range clause only. Verus proves on the real text of ide::handlers::inlay_hint::exec that every hint it returns has its position inside the requested range: '
                   'the filter closure of the final hints.retain(..) is moved into a function and proved to answer start <= position <= end, and Vec::retain is assumed to keep exactly the '
                   'elements for which it answers true. What the gathering loop produces (rowan navigation, format!) is not constrained. NOT proved: the hover half (signature and doc comments), that '
